@@ -14,18 +14,34 @@
 #define NL 10
 typedef int cmp_fn(const void*, const void*);
 
-struct in_p6 { struct dep_in dep; int S[NL][16]; unsigned e; unsigned prior[16]; bool lang_out_null; };
+struct in_p6 {
+    struct dep_in dep; int S[NL][16]; unsigned e; unsigned prior[16]; bool lang_out_null;
+    bool history; int S0[NL][16];      /* an arbitrary earlier detection call on another phrase */
+};
 static struct in_p6 G;
 static const char TOK[16] = { 0 };
+static const char TOK0[16] = { 0 };
 static int S_badlang, S_calls;
+
+static bool in_tokens(const char* p, const char* base) {
+#ifndef REPLAY
+    return __CPROVER_same_object(p, base) && __CPROVER_POINTER_OFFSET(p) < 16;
+#else
+    return (uintptr_t)p >= (uintptr_t)base && (uintptr_t)p < (uintptr_t)base + 16;
+#endif
+}
 
 int __CPROVER_file_local_lang_c_lang_search(const polyseed_lang* lang, const char* word, cmp_fn* cmp) {
     (void)cmp;
     S_calls++;
-    long wi = word - TOK;
     int li = -1;
     for (int i = 0; i < NL; ++i) if (lang == polyseed_get_lang(i)) li = i;
-    if (li < 0 || wi < 0 || wi >= 16) { S_badlang++; return -1; }
+    if (in_tokens(word, TOK0)) {                     /* token of the earlier phrase */
+        if (li < 0) { S_badlang++; return -1; }
+        return G.S0[li][word - TOK0];
+    }
+    if (li < 0 || !in_tokens(word, TOK)) { S_badlang++; return -1; }
+    long wi = word - TOK;
     return G.S[li][wi];
 }
 
@@ -53,6 +69,17 @@ void p6_auto(void) {
     for (int l = 0; l < NL; ++l) for (int w = 0; w < 16; ++w) VASSUME(G.S[l][w] >= -1 && G.S[l][w] < 2048);
     VASSUME(G.e < NL);
     dep_install(&G.dep);
+    if (G.history) {
+        /* history: results must not depend on what was decoded before (C13: the
+         * library state is only the feature mask and the injected functions) */
+        for (int l = 0; l < NL; ++l) for (int w = 0; w < 16; ++w) VASSUME(G.S0[l][w] >= -1 && G.S0[l][w] < 2048);
+        polyseed_phrase phrase0;
+        for (int w = 0; w < 16; ++w) phrase0[w] = &TOK0[w];
+        uint_fast16_t idx0[16];
+        const polyseed_lang* lang0 = NULL;
+        (void)polyseed_phrase_decode(phrase0, idx0, &lang0);
+        S_calls = 0;
+    }
     VASSERT(polyseed_get_num_langs() == NL, "P6 ten languages registered");
     for (int i = 0; i < NL; ++i) for (int j = 0; j < i; ++j)
         VASSERT(polyseed_get_lang(i) != polyseed_get_lang(j), "P6 registered languages are distinct objects");
